@@ -81,7 +81,7 @@ var c06FaultModes = []string{"write-fail", "write-fail", "ctx-cancel", "ctx-canc
 	"put:" + clockShelf, "put:" + payloadsShelf, "put:" + metadataShelf, "put:_" + c06NotTx + "_jobs", "put:_" + c06NotPay + "_jobs"}
 
 // kid-signed transactions relative to a DID document history (create / rotate / add key / remove key)
-var c06DIDTxModes = []string{"vouched", "unvouched", "unvouched", "removed-vouched", "removed-unvouched", "future-key-old-version", "latest-key-unvouched"}
+var c06DIDTxModes = []string{"vouched", "unvouched", "unvouched", "removed-vouched", "removed-unvouched", "future-key-old-version", "latest-key-unvouched", "deactivated-version"}
 
 func c06GenOffer(t *rapid.T) c06Offer {
 	o := c06Offer{
@@ -111,7 +111,7 @@ func c06GenOffer(t *rapid.T) c06Offer {
 	case "fault":
 		o.V = rapid.SampledFrom(c06FaultModes).Draw(t, "fault")
 	case "did":
-		o.V = rapid.SampledFrom([]string{"rotate", "rotate", "addkey", "removekey"}).Draw(t, "didop")
+		o.V = rapid.SampledFrom([]string{"rotate", "rotate", "rotate", "addkey", "addkey", "removekey", "removekey", "deactivate-keep-vm", "deactivate"}).Draw(t, "didop")
 		o.Key = rapid.IntRange(0, 1).Draw(t, "did")
 	case "didtx":
 		o.V = rapid.SampledFrom(c06DIDTxModes).Draw(t, "didtx")
@@ -222,7 +222,8 @@ func (f *c06Fix) base(o c06Offer, idx, sub int, forceKid, forceJWK bool) c06Base
 		b.key = f.ovKey
 	}
 	b.alg = b.key.naturalAlg(o.Sel)
-	b.payload = []byte(fmt.Sprintf("c06 payload %d/%d/%d", idx, sub, o.Sel))
+	f.nbuilt++ // several transactions may be built within one offer (DID operations): every one gets its own payload
+	b.payload = []byte(fmt.Sprintf("c06 payload %d/%d/%d/%d", idx, sub, o.Sel, f.nbuilt))
 	if o.Shr && n > 0 {
 		// payloads are content addressed and may be shared: declare the payload hash of a present transaction, in 2 of 3
 		// cases one whose payload is already stored (then the supplied bytes are "the same again" or, Pay=wrong, forged)
@@ -836,11 +837,13 @@ type c06DIDState struct {
 	cur     map[string]*c06Key // keys the latest version lists
 	removed map[string]*c06Key // keys a former version listed and the latest does not
 	vers    []c06DIDVer
+	deact   bool // the latest version is a deactivation (terminal)
 }
 
 type c06DIDVer struct {
-	src  hash.SHA256Hash
-	kids map[string]bool
+	src   hash.SHA256Hash
+	kids  map[string]bool
+	deact bool
 }
 
 func (d *c06DIDState) isSource(r hash.SHA256Hash) bool {
@@ -852,10 +855,10 @@ func (d *c06DIDState) isSource(r hash.SHA256Hash) bool {
 	return false
 }
 
-// lastListing returns the source transaction of the newest version that lists kid.
+// lastListing returns the source transaction of the newest ACTIVE version that lists kid.
 func (d *c06DIDState) lastListing(kid string) (hash.SHA256Hash, bool) {
 	for i := len(d.vers) - 1; i >= 0; i-- {
-		if d.vers[i].kids[kid] {
+		if d.vers[i].kids[kid] && !d.vers[i].deact {
 			return d.vers[i].src, true
 		}
 	}
@@ -887,14 +890,15 @@ func (f *c06Fix) extras(d *c06DIDState, sel uint32, n int) []hash.SHA256Hash {
 	return out
 }
 
-func (f *c06Fix) publish(d *c06DIDState, keys map[string]*c06Key, ref hash.SHA256Hash) {
+func (f *c06Fix) publish(d *c06DIDState, keys map[string]*c06Key, ref hash.SHA256Hash, deact bool) {
 	pubs := map[string]crypto.PublicKey{}
-	ver := c06DIDVer{src: ref, kids: map[string]bool{}}
+	ver := c06DIDVer{src: ref, kids: map[string]bool{}, deact: deact}
 	for k, key := range keys {
 		pubs[k] = key.public()
 		ver.kids[k] = true
 	}
-	f.res.addVersion(d.did, pubs, ref)
+	f.x.NoErr(f.res.addVersion(d.did, pubs, ref, deact), "publish DID document version")
+	d.deact = deact
 	for k, key := range d.cur {
 		if _, still := keys[k]; !still {
 			d.removed[k] = key
@@ -926,11 +930,18 @@ func (f *c06Fix) runDID(step int, o c06Offer) {
 		}
 		d.nkeys++
 		f.dids[i] = d
-		f.publish(d, map[string]*c06Key{kid: k}, hash.SHA256Sum(s.data))
+		f.publish(d, map[string]*c06Key{kid: k}, hash.SHA256Sum(s.data), false)
 		if o.K == "didtx" {
 			return // runDIDTx continues with the document it asked for
 		}
 		// the document exists now: go on with the requested new version in the same offer
+	}
+	if d.deact {
+		// deactivation is final: instead of a new version, offer a transaction signed with a key of the deactivated document
+		oo := o
+		oo.K, oo.V = "didtx", "deactivated-version"
+		f.runDIDTx(step, oo)
+		return
 	}
 	signer := c06SortedKids(d.cur)[int(o.Sel)%len(d.cur)]
 	vouch, _ := d.lastListing(signer)
@@ -948,7 +959,12 @@ func (f *c06Fix) runDID(step int, o c06Offer) {
 		next[k] = key
 	}
 	newKid := fmt.Sprintf("%s#key-%d", d.did, d.nkeys)
+	deact := false
 	switch {
+	case o.V == "deactivate-keep-vm":
+		deact = true // no controller, no capabilityInvocation, the verification methods still listed
+	case o.V == "deactivate":
+		deact, next = true, map[string]*c06Key{}
 	case o.V == "removekey" && len(next) > 1:
 		delete(next, c06SortedKids(next)[int(o.Sel/3)%len(next)])
 	case o.V == "addkey":
@@ -958,7 +974,7 @@ func (f *c06Fix) runDID(step int, o c06Offer) {
 		next = map[string]*c06Key{newKid: keys[(i+d.nkeys)%3]}
 		d.nkeys++
 	}
-	f.publish(d, next, hash.SHA256Sum(s.data))
+	f.publish(d, next, hash.SHA256Sum(s.data), deact)
 }
 
 // runDIDTx offers an ordinary kid-signed transaction whose prevs do / do not vouch for the key.
@@ -987,7 +1003,22 @@ func (f *c06Fix) runDIDTx(step int, o c06Offer) {
 		return k, m[k], true
 	}
 	mode := o.V
+	if mode == "deactivated-version" && !d.deact {
+		// deactivate first: mostly with a document that still lists its verification methods
+		oo := o
+		oo.K, oo.V = "did", []string{"deactivate-keep-vm", "deactivate-keep-vm", "deactivate"}[o.Sel%3]
+		f.runDID(step, oo)
+		if !d.deact || len(f.x.Violations()) > 0 {
+			return
+		}
+	}
 	kid, key, ok := pick(d.cur)
+	if !ok {
+		kid, key, ok = pick(d.removed) // an emptied (deactivated) document: only former keys are left
+		if mode == "vouched" {
+			mode = "removed-vouched"
+		}
+	}
 	if strings.HasPrefix(mode, "removed-") {
 		if kid, key, ok = pick(d.removed); !ok {
 			mode, kid, key, ok = "unvouched", "", nil, false
@@ -1006,6 +1037,13 @@ func (f *c06Fix) runDIDTx(step int, o c06Offer) {
 	case "vouched", "removed-vouched":
 		v, _ := d.lastListing(kid)
 		prevs = append([]hash.SHA256Hash{v}, f.extras(d, o.Sel, np-1)...)
+	case "deactivated-version":
+		// a key of the document, referenced to the deactivation itself (alone, or next to transactions that vouch for nothing)
+		last := d.vers[len(d.vers)-1].src
+		prevs = []hash.SHA256Hash{last}
+		if o.Sel%2 == 0 {
+			prevs = append(prevs, f.extras(d, o.Sel, np-1)...)
+		}
 	case "future-key-old-version":
 		// the key of the latest version, referenced to an older version that does not list it yet
 		for _, v := range d.vers {
